@@ -336,7 +336,7 @@ def run(ctx):
                     ctx.dist['messages-compression-flipped'] += 1
             except Exception as e:
                 ctx.dist['compression-flip-not-possible'] += 1
-    k_rand = ctx.n(8, 60)
+    k_rand = ctx.n(25, 120)
     for label, msg in msgs + derived:
         n = msg.n_subsets.value
         cols = index_collections(rng, n, k_rand)
